@@ -69,6 +69,8 @@ type (
 		// the parser's Add method from multiple goroutines.
 		parserMu sync.Mutex
 		parser   parser.Parser
+		// Number of packets received so far. Protected by parserMu.
+		packetSeq uint64
 
 		noReconnection       bool
 		reconnectionAttempts uint32
@@ -229,7 +231,11 @@ func (m *Manager) onParserFinish(header *parser.PacketHeader, eventName string, 
 	if !ok {
 		return
 	}
-	go socket.onPacket(header, eventName, decode)
+	// Packets are dispatched on their own goroutines, so handlers may run out of order.
+	// Number the packets in the order they were received (this callback runs under
+	// parserMu) so that the socket can keep the offset of the LATEST packet.
+	m.packetSeq++
+	go socket.onPacket(header, eventName, decode, m.packetSeq)
 }
 
 func (m *Manager) packet(packets ...*eioparser.Packet) {
